@@ -208,9 +208,13 @@ def write_replay(prop_id: str, seed: int, n: int, payload: dict) -> str:
 
 def search_failing_input(prop: Prop, case: dict, rng: random.Random, budget: int) -> tuple[dict, Any, str] | None:
     """Oracle over the case, its shrinks and a seeded neighbourhood; returns the first failing one."""
+    import itertools
+
     seen = 0
-    for cand in [case, *prop.shrink(case), *prop.neighbours(case, rng)]:
-        if seen >= budget:
+    t_end = time.time() + (40 if budget <= 300 else 240)     # a search is bounded in time as well as in cases
+    # neighbours() may be an endless generator: never materialise it
+    for cand in itertools.chain([case], prop.shrink(case), prop.neighbours(case, rng)):
+        if seen >= budget or time.time() > t_end:
             break
         seen += 1
         try:
@@ -369,9 +373,16 @@ def main(argv: list[str]) -> int:
     tier = os.environ.get("VERIF_TIER", tier) if argv[1] not in ("quick", "thorough") else tier
     seed = int(os.environ.get("VERIF_SEED", "0"))
     import faulthandler
+    import signal
 
-    # watchdog: a stuck run is a harness failure (exit 2 via faulthandler's hard exit), never a verdict
-    faulthandler.dump_traceback_later(900 if tier == "quick" else 5400, exit=True)
+    # watchdog: a stuck run is a harness failure (exit 2), never a verdict
+    def _timeout(signum: int, frame: Any) -> None:
+        faulthandler.dump_traceback(file=sys.stderr)
+        print(f"HARNESS-TIMEOUT: {pid} {tier} exceeded its time budget", file=sys.stderr)
+        os._exit(2)
+
+    signal.signal(signal.SIGALRM, _timeout)
+    signal.alarm(900 if tier == "quick" else 5400)
     try:
         mod = importlib.import_module(f"harness.props.{pid.lower()}")
         prop = mod.PROP
